@@ -84,14 +84,15 @@ def run(ck):
         is_class = task == 'class'
         metric = [None, 'accuracy', 'brier', None][i % 4]
         d = 3
-        method = ['top_vector_agop_on_subset', 'random_pca', 'random_agop_on_subset', 'random', 'linear'][i % 5]
+        method = ['top_vector_agop_on_subset', 'random_pca', 'random_agop_on_subset', 'random', 'linear', 'random_global_agop'][i % 6]
+        tree_iters = 1 if method == 'random_global_agop' else 0       # trees rebuilt from the previous build's averaged feature matrix
         ctor = dict(rfm_params=xr.default_rfm_params(iters=1, reg=1e-2, bandwidth=3.0, bandwidth_mode=['constant', 'adaptive'][i % 2]),
                     max_leaf_size=int(rng.integers(15, 40)), n_trees=[1, 2][i % 2], verbose=False, tuning_metric=metric, split_method=method,
                     classification_mode=['zero_one', 'prevalence'][i % 2], refill_size=15, temp_tuning_space=[0.0, 0.05, 0.5, 3.0],
-                    random_state=100 + i)
+                    random_state=100 + i, n_tree_iters=tree_iters)
         D = data(task, int(rng.integers(90, 200)), d)
         Q = torch.tensor(xr.make_X('random', 25, d, rng))
-        desc = dict(i=i, task=task, metric=metric, method=method, n=int(D[0].shape[0]), L=ctor['max_leaf_size'], n_trees=ctor['n_trees'], seed=ck.seed)
+        desc = dict(i=i, task=task, metric=metric, method=method, tree_iters=tree_iters, n=int(D[0].shape[0]), L=ctor['max_leaf_size'], n_trees=ctor['n_trees'], seed=ck.seed)
         # (1) same seed after different amounts of prior randomness
         outs = []
         for burn in (0, 17, 10_000):
